@@ -43,6 +43,7 @@ let rec value_of = function
   | S.L [S.A "e"; x] -> VEnum (nat x)
   | S.L [S.A "v"; x] -> VVar (nat x)
   | S.L (S.A "l" :: xs) -> VList (List.map value_of xs)
+  | S.L (S.A "undecl" :: _) -> VList []   (* a directive use that also carries an argument its directive does not declare: no condition the directive takes *)
   | S.L (S.A "o" :: kvs) -> VObj (List.map (function S.L [k; v] -> (nat k, value_of v) | _ -> failwith "exec: obj") kvs)
   | x -> failwith ("exec: value " ^ S.to_string x)
 
